@@ -419,7 +419,24 @@ func TestVerifC06(t *testing.T) {
 				class = "random"
 			case kind == 1 || kind == 2: // well-formed
 				wellFormed = true
-				if kind == 1 {
+				if kind == 1 && i%97 == 5 {
+					// one hash bucket holding more records than a page has record
+					// units, than there are buckets, ...: chains of any length are legal
+					n := verifrt.Pick(rnd, []int{511, 512, 513, 514, 515, 600, 1025, 1500})
+					want := uint32(rnd.Intn(verifref.NumHash))
+					var es []verifref.Entry
+					for k := 0; len(es) < n; k++ {
+						nm := fmt.Sprintf("lc/%d/%d", i, k)
+						if verifref.Hash(nm) == want {
+							es = append(es, verifref.Entry{Name: nm, Value: uint64(k)})
+						}
+					}
+					var err error
+					if data, err = verifref.BuildCounterFile(genMeta(rnd), es); err != nil {
+						panic(err)
+					}
+					class = "wellformed-long-chain"
+				} else if kind == 1 {
 					data, _, _ = genValidFile(rnd, verifrt.Pick(rnd, []int{3, 30, 300, 3000}))
 					class = "wellformed-ref"
 				} else {
@@ -533,7 +550,7 @@ func TestVerifC06(t *testing.T) {
 			}
 		}
 	})
-	res.Require("readfile-compared", "random", "wellformed-ref", "wellformed-lib", "damage:cycle-2", "damage:next-self-stack", "damage:hdrlen-small", "accepted", "rejected", "ref-accepts")
+	res.Require("readfile-compared", "random", "wellformed-ref", "wellformed-lib", "wellformed-long-chain", "damage:cycle-2", "damage:next-self-stack", "damage:hdrlen-small", "accepted", "rejected", "ref-accepts")
 	if err := res.Write(); err != nil {
 		t.Fatal(err)
 	}
